@@ -63,6 +63,25 @@ func (mem *Mempool) checkExpireValid(tx *types.Transaction) bool {
 	return true
 }
 
+// proxyExecInnerTx 返回代理执行交易(executor.checkProxyExecTx)中将被真正执行的内层交易, 不是代理执行交易时返回nil
+func proxyExecInnerTx(cfg *types.Chain33Config, tx *types.Transaction) *types.Transaction {
+	if tx.GetSignature() == nil || !types.IsEthSignID(tx.GetSignature().GetTy()) ||
+		tx.GetTo() != cfg.GetModuleConfig().Exec.ProxyExecAddress ||
+		string(types.GetRealExecName(tx.GetExecer())) != "evm" {
+		return nil
+	}
+	var action types.EVMContractAction4Chain33
+	if err := types.Decode(tx.GetPayload(), &action); err != nil || len(action.GetPara()) == 0 {
+		return nil
+	}
+	var inner types.Transaction
+	if err := types.Decode(action.GetPara(), &inner); err != nil {
+		return nil
+	}
+	inner.Signature = tx.GetSignature()
+	return &inner
+}
+
 // CheckTx 初步检查并筛选交易消息
 func (mem *Mempool) checkTx(msg *queue.Message) *queue.Message {
 	tx := msg.GetData().(types.TxGroup).Tx()
@@ -77,6 +96,14 @@ func (mem *Mempool) checkTx(msg *queue.Message) *queue.Message {
 		mlog.Error("checkTx blocked account", "txhash", common.ToHex(tx.Hash()), "err", err)
 		msg.Data = err
 		return msg
+	}
+	// 代理执行交易真正被执行的是payload中携带的内层交易, 内层交易同样要过黑名单判定
+	if inner := proxyExecInnerTx(mem.client.GetConfig(), tx); inner != nil {
+		if err := types.CheckTxBlockedAccountImmediate(inner); err != nil {
+			mlog.Error("checkTx blocked account", "txhash", common.ToHex(tx.Hash()), "proxy", true, "err", err)
+			msg.Data = err
+			return msg
+		}
 	}
 	// 检查交易账户在mempool中是否存在过多交易
 	from := tx.From()
